@@ -225,7 +225,7 @@ def replay_file(mod, path):
 
 
 def write_replay(pid, viol):
-    d = os.path.join(VERIF, "replays", pid)
+    d = os.path.join(os.environ.get("VF_REPLAY_DIR") or os.path.join(VERIF, "replays"), pid)
     os.makedirs(d, exist_ok=True)
     path = os.path.join(d, case_hash(viol["case"])[:16] + ".json")
     with open(path, "w") as f:
@@ -235,7 +235,7 @@ def write_replay(pid, viol):
 
 
 def write_evidence(pid, tier, seed, level, coverage, assumptions, wall, violations):
-    d = os.path.join(VERIF, "evidence")
+    d = os.environ.get("VF_EVIDENCE_DIR") or os.path.join(VERIF, "evidence")   # sensitivity experiments write elsewhere
     os.makedirs(d, exist_ok=True)
     ev = {
         "property_id": pid,
